@@ -66,6 +66,8 @@ func (this *Neo3Handler) SyncGenesisHeader(native *native.NativeService) error {
 		}); err != nil {
 			return fmt.Errorf("Neo3Handler SyncGenesisHeader, update ConsensusPeer error: %v", err)
 		}
+	} else {
+		return fmt.Errorf("Neo3Handler SyncGenesisHeader, genesis header had been initialized")
 	}
 	return nil
 }
